@@ -324,6 +324,45 @@ brk("c16-escape-always", ["C16"], "src/token.rs",
         if !string.is_empty() {
             Some(Token::Quoted(string))""", "C16.R6:quoted")
 
+ben("c14-fk-columns-peekable-loop", ["C14"], "src/backend/mysql/foreign_key.rs",
+    """        write!(sql, "(").unwrap();
+        create.foreign_key.columns.iter().fold(true, |first, col| {
+            if !first {
+                write!(sql, ", ").unwrap();
+            }
+            col.prepare(sql.as_writer(), self.quote());
+            false
+        });
+        write!(sql, ")").unwrap();""",
+    """        write!(sql, "(").unwrap();
+        let mut fk_cols = create.foreign_key.columns.iter().peekable();
+        while let Some(col) = fk_cols.next() {
+            col.prepare(sql.as_writer(), self.quote());
+            if fk_cols.peek().is_some() {
+                write!(sql, ", ").unwrap();
+            }
+        }
+        write!(sql, ")").unwrap();""")
+brk("c14-fk-columns-peekable-separator-inverted", ["C14"], "src/backend/mysql/foreign_key.rs",
+    """        write!(sql, "(").unwrap();
+        create.foreign_key.columns.iter().fold(true, |first, col| {
+            if !first {
+                write!(sql, ", ").unwrap();
+            }
+            col.prepare(sql.as_writer(), self.quote());
+            false
+        });
+        write!(sql, ")").unwrap();""",
+    """        write!(sql, "(").unwrap();
+        let mut fk_cols = create.foreign_key.columns.iter().peekable();
+        while let Some(col) = fk_cols.next() {
+            col.prepare(sql.as_writer(), self.quote());
+            if fk_cols.peek().is_none() {
+                write!(sql, ", ").unwrap();
+            }
+        }
+        write!(sql, ")").unwrap();""", "C14.R1")
+
 # ---- C19 -------------------------------------------------------------------------------------------------------
 brk("c19-all-to-any", ["C19"], "sea-query-derive/src/lib.rs",
     "        && name.chars().all(|c| c == '_' || c.is_ascii_alphanumeric())", "        && name.chars().any(|c| c == '_' || c.is_ascii_alphanumeric())", "C19.R1:predicate")
@@ -331,6 +370,39 @@ brk("c19-and-to-or-assign", ["C19"], "sea-query-derive/src/lib.rs", "           
 brk("c19-swapped-branches", ["C19"], "sea-query-derive/src/lib.rs", "    let prepare = if is_all_valid {\n", "    let prepare = if !is_all_valid {\n", "C19.R2:enum:prepare-only-guarded")
 brk("c19-lowercase", ["C19"], "sea-query-derive/src/iden/write_arm.rs", "            self.ident.to_string().to_snake_case()\n        }\n    }", "            self.ident.to_string().to_lowercase()\n        }\n    }", "C19.R")
 brk("c19-table-lowercase-cmp", ["C19"], "sea-query-derive/src/iden/write_arm.rs", '        if self.ident == "Table" {', '        if self.ident == "table" {', "C19.R")
+
+brk("c19-variant-default-skips-casing", ["C19"], "sea-query-derive/src/iden/write_arm.rs",
+    """            .unwrap_or_else(|| {
+                let name = self.table_or_snake_case();
+                quote! { #name }
+            });""",
+    """            .unwrap_or_else(|| {
+                let name = if self.ident == "Table" { self.table_or_snake_case() } else { self.ident.to_string() };
+                quote! { #name }
+            });""", "C19.R3:write_variant_name:default")
+brk("c19-container-method-taken-as-name", ["C19"], "sea-query-derive/src/lib.rs",
+    """            IdenAttr::Rename(lit) => lit,
+            _ => return Err(syn::Error::new_spanned(att, ErrorMsg::ContainerAttr)),""",
+    """            IdenAttr::Rename(lit) => lit,
+            IdenAttr::Method(m) => m.to_string(),
+            _ => return Err(syn::Error::new_spanned(att, ErrorMsg::ContainerAttr)),""", "C19.R3:get_table_name:rename")
+brk("c19-container-rename-lowercased", ["C19"], "sea-query-derive/src/lib.rs",
+    """            IdenAttr::Rename(lit) => lit,
+            _ => return Err(syn::Error::new_spanned(att, ErrorMsg::ContainerAttr)),""",
+    """            IdenAttr::Rename(lit) => lit.to_snake_case(),
+            _ => return Err(syn::Error::new_spanned(att, ErrorMsg::ContainerAttr)),""", "C19.R3:get_table_name:rename")
+brk("c19-enum-def-empty-suffix-defaulted", ["C19"], "sea-query-derive/src/lib.rs",
+    """        args.suffix.unwrap_or_else(|| DEFAULT_SUFFIX.to_string())""",
+    """        args.suffix.filter(|s| !s.is_empty()).unwrap_or_else(|| DEFAULT_SUFFIX.to_string())""", "C19.R3:enum_def:name")
+ben("c19-variant-name-through-helper", ["C19"], "sea-query-derive/src/iden/write_arm.rs",
+    """            .unwrap_or_else(|| {
+                let name = self.table_or_snake_case();
+                quote! { #name }
+            });""",
+    """            .unwrap_or_else(|| {
+                let name = { let n = self.table_or_snake_case(); n };
+                quote! { #name }
+            });""")
 
 # ---- C11 -------------------------------------------------------------------------------------------------------
 brk("c11-values-num", ["C11"], "src/backend/query_builder.rs", "self.prepare_simple_expr(&values[num - 1], sql);", "self.prepare_simple_expr(&values[num], sql);", "C11.R1:custom:tape-table")
